@@ -8,6 +8,7 @@ mod dom;
 mod external;
 mod files;
 mod hteval;
+mod preamble;
 mod prover;
 mod rt;
 mod simp;
@@ -171,6 +172,12 @@ fn run_tptp(deep: bool) -> (String, Vec<trans::Failure>) {
         st.samples.iter().map(|s| json_str(s)).collect::<Vec<_>>().join(", ")), fails)
 }
 
+fn run_preamble(_deep: bool) -> (String, Vec<trans::Failure>) {
+    let mut fails = Vec::new();
+    let (structures, models) = preamble::check(&mut fails);
+    (format!("\"structures_enumerated\": {}, \"models_of_anthems_own_axioms\": {}", structures, models), fails)
+}
+
 fn run_trans(deep: bool) -> (String, Vec<trans::Failure>) {
     let corpus = trans::corpus(deep);
     let n_interp = if deep { 160 } else { 40 };
@@ -218,6 +225,7 @@ fn main() {
         "applic" => run_applic(deep),
         "subst" => run_subst(deep),
         "crash" => run_crash(deep),
+        "preamble" => run_preamble(deep),
         "completion" => run_completion(deep),
         "tptp" => run_tptp(deep),
         "rt_programs" => run_rt(deep, true),
